@@ -183,7 +183,9 @@ pub fn run(ctx: &mut Ctx) {
     });
 
     // has() must propagate every other failure
-    let others = ["1 / zero", "[1][5]", "1 + 's'", "int('x')", "boom(9)", "{'a': 1}.a.b.c['d']", "m.a / zero", "[1, 2][m.zz]"];
+    // (the last five: a field / key of a value that itself failed is that failure, not an absent field)
+    let others = ["1 / zero", "[1][5]", "1 + 's'", "int('x')", "boom(9)", "{'a': 1}.a.b.c['d']", "m.a / zero", "[1, 2][m.zz]",
+                  "(1 / zero).a", "[1][5].a", "int('x').a.b", "boom(9).a", "(m.a / zero).k.j"];
     ctx.stage("has-other-failures", others.len() as u64 * CONTEXTS.len() as u64, false, |idx, _rng, rep| {
         let e = others[idx as usize % others.len()];
         let (cname, tpl) = CONTEXTS[idx as usize / others.len()];
@@ -207,6 +209,66 @@ pub fn run(ctx: &mut Ctx) {
                 json!({"source": src}),
             );
         }
+    });
+
+    // ---- has() / coalesce() over names that resolve to stored programs ------------------------------------------
+    // A name may denote a program stored in the context; it evaluates to what the program's source evaluates to
+    // under the same bindings. has() and coalesce() classify that evaluation exactly as they classify the source
+    // written in place: oracle = the same expression with the program's (parenthesised) source inlined.
+    const STORED: [(&str, &str); 9] = [
+        ("pgood", "10"),
+        ("pnull", "null"),
+        ("pmap", "{'a': {'b': 1, 'n': null}}"),
+        ("pvar", "ov"),              // a bound variable
+        ("pvarmap", "om"),           // a bound map
+        ("pabsent", "unbound_name"), // fails as absent
+        ("pabsent2", "om.zz"),       // absent key
+        ("pfail", "1 / zero"),       // any other failure
+        ("pfail2", "[1][5]"),
+    ];
+    const USES: [&str; 12] = [
+        "has(@)", "has(@.a)", "has(@.a.b)", "has(@.a.zz)", "has(@.a.n)", "coalesce(@, 7)", "coalesce(@.a.b, 7)", "coalesce(@.a.zz, @.a.b, 7)",
+        "coalesce(null, @)", "has(@) ? 1 : 2", "[has(@), has(@.a)]", "coalesce(@.a.n, 8)",
+    ];
+    ctx.stage("stored-programs", (STORED.len() * USES.len() * CONTEXTS.len()) as u64, false, |idx, _rng, rep| {
+        let (pname, psrc) = STORED[idx as usize % STORED.len()];
+        let usage = USES[(idx as usize / STORED.len()) % USES.len()];
+        let (cname, tpl) = CONTEXTS[idx as usize / STORED.len() / USES.len()];
+        let by_name = tpl.replace("{}", &usage.replace('@', pname));
+        let inlined = tpl.replace("{}", &usage.replace('@', &format!("({})", psrc)));
+        let binds: Vec<(String, CelValue)> = vec![
+            ("ov".to_string(), 5.into()),
+            ("om".to_string(), vals::mk_map(&[("a", vals::mk_map(&[("b", 2.into()), ("n", CelValue::from_null())]))])),
+            ("zero".to_string(), 0.into()),
+        ];
+        let run = |main: &str, with_programs: bool| -> Out {
+            let mut c = rscel::CelContext::new();
+            if with_programs {
+                for (n, s) in STORED.iter() {
+                    if c.add_program_str(n, s).is_err() {
+                        return Out::Panic("stored program rejected".into(), "harness".into());
+                    }
+                }
+            }
+            match mon::catch(|| c.add_program_str("main", main)) {
+                Ok(Ok(())) => mon::exec_prog(&mut c, "main", &mon::bind_ctx(&binds)),
+                Ok(Err(e)) => Out::Err(e),
+                Err((m, l)) => Out::Panic(m, l),
+            }
+        };
+        let got = run(&by_name, true);
+        let want = run(&inlined, false);
+        rep.eval();
+        rep.count("stored_program_uses");
+        rep.count(&format!("stored_program/{}", pname));
+        if got.canon_anyerr() != want.canon_anyerr() {
+            rep.viol(
+                &format!("stored-program|{}|{}|{}", pname, usage, cname),
+                &format!("`{}` with {} = `{}` stored gives {} but with the source written in place (`{}`) it gives {}", by_name, pname, psrc, got.show(), inlined, want.show()),
+                json!({"by_name": by_name, "inlined": inlined, "program": psrc}),
+            );
+        }
+        rep.distinct(&by_name, true);
     });
 
     // ---- coalesce(): every argument list of length 0..4 over 8 item kinds, plus random longer ----
